@@ -140,4 +140,26 @@ example : ∃ G : Graph 3, Graph.new 3 false [(0, 1, 1), (1, 2, 1)] = .ok G ∧
     (greedy G [2, 0, 1] (fun v => [-1, 0, 0].getD v.1 0)).1 = false := by
   refine ⟨_, rfl, by decide +kernel, by decide +kernel, by decide +kernel⟩
 
+/-- `play()` asked again on the same solver (a fresh budget, the working divisor and the script
+    where the previous call left them — in particular after a capped failure): a script it then
+    returns is still a certificate for the ORIGINAL divisor -/
+theorem resumed_play_certificate (G : Graph n) (hG : G.WF) (vorder : List (Fin n)) (hcov : ∀ v, v ∈ vorder)
+    (D : Fin n → Int)
+    (h : (greedyGo G vorder (10 * n) (greedy G vorder D).2.1 (greedy G vorder D).2.2).1 = true) :
+    lapApply G D (greedyGo G vorder (10 * n) (greedy G vorder D).2.1 (greedy G vorder D).2.2).2.2.get
+      = (greedyGo G vorder (10 * n) (greedy G vorder D).2.1 (greedy G vorder D).2.2).2.1.get ∧
+    Eff (greedyGo G vorder (10 * n) (greedy G vorder D).2.1 (greedy G vorder D).2.2).2.1.get ∧ Winnable G D := by
+  obtain ⟨l, -, h2, h3, -, -, -⟩ := greedy_run G hG vorder hcov D
+  obtain ⟨l', -, k2, k3, -, k5, -⟩ :=
+    greedyGo_spec G vorder hcov (10 * n) (greedy G vorder D).2.1 (greedy G vorder D).2.2
+  have hD2 : (greedyGo G vorder (10 * n) (greedy G vorder D).2.1 (greedy G vorder D).2.2).2.1.get
+      = applyScript G D (fun v => negCount l v + negCount l' v) := by
+    rw [k2, foldl_borrow_eq G hG.symm, h2, applyScript_add]
+  have hs2 : (greedyGo G vorder (10 * n) (greedy G vorder D).2.1 (greedy G vorder D).2.2).2.2.get
+      = fun v => negCount l v + negCount l' v := by
+    rw [k3, h3]; funext v; simp [negCount]; ring
+  refine ⟨?_, k5 h, ?_⟩
+  · rw [C06.apply_eq_spec G hG, hs2, hD2]
+  · exact ⟨_, ⟨_, hD2⟩, k5 h⟩
+
 end CF.C14
